@@ -212,15 +212,16 @@ def unbound_after_try_obligations(ctx, rep, rule):
                     out.add(x.name)
         return out
 
-    def scan_block(f, block, bound):
-        """bound: names certainly bound before this block (params + earlier straight-line stores)"""
+    def scan_block(f, block, bound, outer_after=()):
+        """bound: names certainly bound before this block (params + earlier straight-line stores);
+        outer_after: statements that run after the enclosing loop / block has been left"""
         nonlocal n_try
         bound = set(bound)
         for i, st in enumerate(block):
             if isinstance(st, ast.Try):
                 n_try += 1
                 in_body = stores(st.body) - bound
-                after = block[i + 1:]
+                after = block[i + 1:] + list(outer_after)
                 read_after = {x.id for a in after for x in ast.walk(a) if isinstance(x, ast.Name) and isinstance(x.ctx, ast.Load)}
                 read_after |= {x.id for a in st.finalbody for x in ast.walk(a) if isinstance(x, ast.Name) and isinstance(x.ctx, ast.Load)} - set()
                 for h in st.handlers:
@@ -241,23 +242,25 @@ def unbound_after_try_obligations(ctx, rep, rule):
                         found.append((f, st, h, name))
                 for h in st.handlers:
                     # `except X as name`: the name is deleted when the handler ends - whatever it held before the try is gone too
-                    if h.name and ends_normally(h.body) and h.name in read_after:
+                    stays = not (h.body and isinstance(h.body[-1], (ast.Raise, ast.Return)))  # `continue` / `break` stay in the function
+                    read_later = {x.id for a in after for x in ast.walk(a) if isinstance(x, ast.Name) and isinstance(x.ctx, ast.Load)}
+                    if h.name and stays and h.name in (read_after | read_later):
                         first = next((a for a in after if any(isinstance(x, ast.Name) and x.id == h.name for x in ast.walk(a))), None)
                         rebinds = isinstance(first, ast.Assign) and any(isinstance(t, ast.Name) and t.id == h.name for t in first.targets) \
                             and not any(isinstance(x, ast.Name) and x.id == h.name and isinstance(x.ctx, ast.Load) for x in ast.walk(first.value))
                         if not rebinds:
                             found.append((f, st, h, h.name))
                 for sub in (st.body, st.orelse, st.finalbody):
-                    scan_block(f, sub, bound)
+                    scan_block(f, sub, bound, after)
                 for h in st.handlers:
-                    scan_block(f, h.body, bound)
+                    scan_block(f, h.body, bound, after)
                 bound |= stores(st.body) & stores([ast.Module(body=h.body, type_ignores=[]) for h in st.handlers if ends_normally(h.body)] or st.body) \
                     if any(ends_normally(h.body) for h in st.handlers) else stores(st.body)
                 continue
             for fld in ("body", "orelse", "finalbody"):
                 sub = getattr(st, fld, None)
                 if isinstance(sub, list) and sub and isinstance(sub[0], ast.stmt) and not isinstance(st, (ast.FunctionDef, ast.AsyncFunctionDef, ast.ClassDef)):
-                    scan_block(f, sub, bound)
+                    scan_block(f, sub, bound, block[i + 1:] + list(outer_after))
             if isinstance(st, (ast.Assign, ast.AnnAssign, ast.AugAssign, ast.Import, ast.ImportFrom, ast.With, ast.For)):
                 if isinstance(st, (ast.With, ast.For)):
                     continue
